@@ -149,7 +149,7 @@ type propC19 struct{ seqProp }
 
 func init() {
 	Register(propC19{seqProp{id: "C19",
-		rule: "cases by run index: (a) upgrade restart - a database directory written through the public API by the pinned revision 42f3f3c (long, multi-byte, binary and empty keys, overwritten keys with uncollected versions, a tombstone, a committed multi-key transaction, versions of a never-committed and of a rolled-back transaction) is opened by the current tree, everything its writer acknowledged is read back, then a seeded history with restarts continues on it; (b) restart round trips - histories cut at restarts into segments, each executed by a fresh process (or, half of the time, by one process with the counter reset), sequence counter based at 0, 2^32-3, 2^63-3, keys of arbitrary bytes; (c) corruption - one stored version record of the fixture truncated to 0..60 bytes and/or garbled before Open: shorter than 40 bytes => Open fails, never a panic; oracle: reference model carried across restarts; distinct = hash(case); non-trivial = the run restarted on persisted data at least once (a, b) or a record was damaged (c)",
+		rule: "cases by run index: (a) upgrade restart - a database directory written through the public API by the pinned revision 42f3f3c (long, multi-byte, binary and empty keys, overwritten keys with uncollected versions, a tombstone, a committed multi-key transaction, versions of a never-committed and of a rolled-back transaction) is opened by the current tree, everything its writer acknowledged is read back, then a seeded history with restarts continues on it; (b) restart round trips - histories cut at restarts into segments, each executed by a fresh process (or, half of the time, by one process with the counter reset), sequence counter based at 0, 2^32-3, 2^63-3, keys of arbitrary bytes; (d) record level - 100-400 version records whose transaction and content ids are canonical UUIDs of every kind (nil, single non-zero byte, leading/trailing zero halves, all ones, versions 1 and 4), sequences at every byte boundary up to 2^64-1 and keys of any bytes up to 70 000 are stored through the real file repository and must come back from its scan exactly; (c) corruption - one stored version record of the fixture truncated to 0..60 bytes and/or garbled before Open: shorter than 40 bytes => Open fails, never a panic; oracle: reference model carried across restarts; distinct = hash(case); non-trivial = the run restarted on persisted data at least once (a, b) or a record was damaged (c)",
 		runs: [2]int{2500, 30000}}})
 }
 
@@ -169,6 +169,15 @@ func (p propC19) Gen(r *simrt.Rand, idx int, tier string) any {
 			c.Corrupt.Truncate = -1
 			c.Corrupt.Garble = true
 		}
+		return c
+	}
+	if idx%30 == 13 {
+		// record level: field values of every kind through the real file repository and its scan
+		c := SeqCase{Prop: "C19", ReadBack: "none"}
+		c.Sched = SchedSpec{Seed: r.Uint64(), Strategy: "seqbg", MaxSteps: 6_000_000}
+		c.World = defaultWorldSpec()
+		c.Keys = []string{"a"}
+		c.Ops = append(c.Ops, Op{K: "set", Key: "a", ID: 1, Size: 10}, Op{K: "records", N: 100 + r.Intn(300), ID: r.Uint64()}, Op{K: "get", Key: "a"})
 		return c
 	}
 	if idx%30 == 7 {
@@ -195,7 +204,8 @@ func (p propC19) Gen(r *simrt.Rand, idx int, tier string) any {
 	c := genSeqCase(r, seqProfile{prop: "C19", steps: [2]int{12, 40}, keys: [2]int{2, 4}, maxTx: 3, txWeight: 45, ctlWeight: 8, reopen: 12, readback: "all"})
 	// arbitrary key bytes (the inline client takes any string)
 	odd := []string{string([]byte{0xff, 0xfe, 0x00, 0x01}), "\x00", "a\nb", strings.Repeat("\xf0\x9f\x92\xa9", 3),
-		strings.Repeat("k", 65001), strings.Repeat("long/", 20000)} // the inline client takes keys of any length
+		strings.Repeat("k", 65001), strings.Repeat("long/", 20000), // the inline client takes keys of any length
+		string(make([]byte, 16)), "00000000-0000-0000-0000-000000000000"} // keys that look like ids (the raw and the text form of the main id)
 	c.Keys = append(c.Keys, odd[r.Intn(len(odd))])
 	for i := range c.Ops {
 		if c.Ops[i].K == "reopen" {
@@ -235,7 +245,7 @@ func (p propC19) Exec(x any, choices []int32) RunOut {
 	if c.Corrupt != nil {
 		out.NonTrivial = true
 	} else {
-		out.NonTrivial = out.Probes["restart"] > 0
+		out.NonTrivial = out.Probes["restart"] > 0 || out.Probes["version-records-round-tripped"] > 0
 	}
 	return out
 }
